@@ -37,6 +37,8 @@ pub enum Op {
     MpInsertBeforeA,
     FinishClearB,
     DropB,
+    /// MultiProgress::println of a message with more lines than the terminal has rows
+    MpPrintlnTall,
 }
 
 pub struct C18 {
@@ -150,6 +152,7 @@ impl C18 {
                     Op::FinishClearB => w.b.as_ref().map(|b| b.finish_and_clear()).unwrap_or(()),
                     Op::DropB => w.b = None,
                     Op::MpPrintln => result = Some(w.mp.as_ref().unwrap().println("L").is_err()),
+                    Op::MpPrintlnTall => result = Some(w.mp.as_ref().unwrap().println((0..25).map(|i| format!("t{i}")).collect::<Vec<_>>().join("\n")).is_err()),
                     Op::MpClear => result = Some(w.mp.as_ref().unwrap().clear().is_err()),
                     Op::MpSuspend => w.mp.as_ref().unwrap().suspend(|| ()),
                     Op::MpRemoveA => {
@@ -254,7 +257,7 @@ impl Hist for C18 {
         }
         v.push(Op::Tick3);
         if self.multi {
-            v.extend([Op::TickB, Op::MpPrintln, Op::MpClear, Op::MpSuspend, Op::MpRemoveA, Op::MpAdd, Op::MpSetTarget, Op::FinishClearB]);
+            v.extend([Op::TickB, Op::MpPrintln, Op::MpClear, Op::MpSuspend, Op::MpRemoveA, Op::MpAdd, Op::MpSetTarget, Op::FinishClearB, Op::MpPrintlnTall]);
             if !prefix.contains(&Op::DropB) {
                 v.push(Op::DropB);
             }
